@@ -72,6 +72,7 @@ def bounds(tier):
               amplitudes='core.palette(seed, tier) as the constant component',
               stiff_lattice=dict(log10_abs_z=[exps[0], exps[-1], exps[1] - exps[0]], arg_degrees=angles,
                                  points=len(exps) * len(angles), step_sizes=t['stiff_hs'], integrators=STIFF_METHODS),
+              caller_forms='zero-padded square tableaux (SIL3 + 4 ARS) vs ragged; caller-owned float64 coefficient arrays reused for 3 steppers (RK3, RK4) and 2 tableaux (SIL3)',
               length_tuples=dict(low_storage='{1..5}^3 x 2 base sets (RK3 extended, RK4 truncated)', imex='{0..4}^4 from SIL3',
                                  imex_rows='each of the 6 SIL3 rows one entry shorter / longer'))
 
@@ -92,6 +93,7 @@ def units(tier, seed):
   for l in range(5):
     us.append(dict(kind='len_imex', l_a_ex=l))
   us.append(dict(kind='len_imex_rows'))
+  us.append(dict(kind='caller_forms'))
   return us
 
 
@@ -193,6 +195,8 @@ def work(unit, rec):
     return _work_len_imex(unit, rec)
   if kind == 'len_imex_rows':
     return _work_len_imex_rows(unit, rec)
+  if kind == 'caller_forms':
+    return _work_caller_forms(unit, rec)
   raise ValueError(kind)
 
 
@@ -384,6 +388,62 @@ def _work_len_imex(unit, rec):
               sig={'function': 'imex_runge_kutta', 'silently_accepted': bool(got and not want)})
     if got:
       rec.finite(out, site='imex_step_finite', key=key)
+
+
+def _work_caller_forms(unit, rec):
+  """The same coefficient set handed over in the other forms a caller may use must give the same scheme:
+  (a) a tableau whose rows are zero-padded to full width (the textbook matrix form) is either rejected or steps
+      exactly like the ragged form (never a different scheme);
+  (b) coefficient arrays owned by the caller (float64 numpy arrays) are not modified by building or running a
+      stepper, and a second stepper built from the same arrays equals the first and the shipped factory."""
+  import jax.numpy as jnp
+  from dinosaur import time_integration as ti
+  eq, u0 = _small_equation()
+  h = 0.125
+  # (a) zero-padded tableaux
+  tabs = {'sil3': {k: [[float(v) for v in row] for row in rt.SIL3[k]] if k.startswith('a_') else [float(v) for v in rt.SIL3[k]] for k in rt.SIL3}}
+  for name, t in rt.TEXTBOOK_IMEX.items():
+    tabs[name] = {k: t[k] for k in ('a_ex', 'a_im', 'b_ex', 'b_im')}
+  for name, t in tabs.items():
+    key = ('padded_tableau', name)
+    width = len(t['b_ex'])
+    pad = lambda rows: [list(r) + [0.0] * (width - len(r)) for r in rows]
+    ragged = np.asarray(_imex_step(ti, eq, u0, t['a_ex'], t['a_im'], t['b_ex'], t['b_im']))
+    got, out, exc = _accepts(lambda: _imex_step(ti, eq, u0, pad(t['a_ex']), pad(t['a_im']), t['b_ex'], t['b_im']))
+    rec.case(key, transitions=2, outcome=(got, exc, out.tobytes() if got else None),
+             sample={'tableau': name, 'form': 'rows zero-padded to width %d' % width, 'accepted': got, 'exception': exc})
+    if got:
+      rec.close(out, ragged, scale=1.0, site='zero_padded_tableau_is_the_same_scheme', key=key, sig={'tableau': name})
+    else:
+      rec.note('zero_padded_tableau_rejected')
+  # (b) caller-owned numpy coefficient arrays
+  for base, w, shipped in (('rk3', rt.WILLIAMSON_RK3, ti.crank_nicolson_rk3), ('rk4', rt.CARPENTER_KENNEDY_RK4, ti.crank_nicolson_rk4)):
+    key = ('caller_arrays', base)
+    arrs = {k: np.array([float(x) for x in w[k]], dtype=np.float64) for k in ('alphas', 'betas', 'gammas')}
+    keep = {k: v.copy() for k, v in arrs.items()}
+    outs = []
+    for rep in range(3):
+      step = ti.low_storage_runge_kutta_crank_nicolson(arrs['alphas'], arrs['betas'], arrs['gammas'], eq, h)
+      outs.append(np.asarray(step(u0)))
+      for k in arrs:
+        rec.exact(arrs[k], keep[k], site='caller_owned_coefficients_not_modified', key=key, sig={'array': k, 'after_stepper': rep})
+    want = np.asarray(shipped(eq, h)(u0))
+    tol = dict(C=1e3, eps=rt.TABULATED_DIGITS_EPS) if base == 'rk4' else {}
+    rec.case(key, transitions=4, outcome=b''.join(o.tobytes() for o in outs), sample={'function': 'low_storage_runge_kutta_crank_nicolson', 'coefficients': base, 'steppers_built_from_the_same_arrays': 3})
+    for rep, o in enumerate(outs):
+      rec.close(o, want, scale=1.0, site='stepper_from_caller_arrays_equals_shipped_scheme', key=key, sig={'stepper': rep}, **tol)
+      rec.exact(o, outs[0], site='repeated_construction_gives_the_same_stepper', key=key, sig={'stepper': rep})
+  # ... and the IMEX tableau built from numpy rows, twice
+  key = ('caller_arrays', 'sil3')
+  t = tabs['sil3']
+  a_ex = [np.array(r) for r in t['a_ex']]; a_im = [np.array(r) for r in t['a_im']]; b_ex = np.array(t['b_ex']); b_im = np.array(t['b_im'])
+  keep = [x.copy() for x in a_ex + a_im + [b_ex, b_im]]
+  outs = [np.asarray(_imex_step(ti, eq, u0, a_ex, a_im, b_ex, b_im)) for _ in range(2)]
+  for x, k in zip(a_ex + a_im + [b_ex, b_im], keep):
+    rec.exact(x, k, site='caller_owned_coefficients_not_modified', key=key)
+  rec.case(key, transitions=2, outcome=outs[0].tobytes() + outs[1].tobytes())
+  rec.exact(outs[1], outs[0], site='repeated_construction_gives_the_same_stepper', key=key)
+  rec.close(outs[0], np.asarray(ti.imex_rk_sil3(eq, h)(u0)), scale=1.0, site='stepper_from_caller_arrays_equals_shipped_scheme', key=key)
 
 
 def _work_len_imex_rows(unit, rec):
